@@ -83,6 +83,48 @@ def monitor_selfcheck(ctx, impls, n):
     ctx.count("mon-selfcheck-flagged", flagged)
 
 
+def sl_class_selfcheck(ctx, n):
+    """C18, skiplist: the class of KF-C18-sl-takeover is stated in Lean on the model (`K_C18_sl` of
+    lean/QbVerif/Props/C18Sl.lean: a forward array is freed while another allocated node still holds it,
+    the harness' clean-up included) and evaluated by the driver `qb_slclass`.  On generated cases (NOT
+    filtered: inside and outside the class) and the corpus: (a) a case outside the Lean class never
+    crashes in the model — the statement `sl_iter_memory_safe`, sampled; (b) the python class predicate
+    `mapgen.k_c18_sl` (array ownership replayed on the dictionary; the generator's filter) only accepts
+    cases of the Lean class.  A disagreement is a defect of the machinery."""
+    if "map" not in ctx.models or "slclass" not in ctx.models:
+        return
+    cases = [("k-%s" % cid, ops) for cid, ops in vlib.corpus_cases("C18") if mapgen.impl_of(ops) == "sl"]
+    cases += [("k%d" % i, mapgen.gen_c18(ctx.rng, "sl")) for i in range(n)]
+    ml = vlib.run_batched(ctx, ctx.models["map"], cases, batch=50)
+    kl = vlib.run_batched(ctx, ctx.models["slclass"], [(cid, ops + ["slk"]) for cid, ops in cases], batch=50)
+    nlean = npy = ncrash = 0
+    for cid, ops in cases:
+        line = [l for l in kl[str(cid)][0] if l.startswith("slk ")]
+        if not line or len(line[-1].split()) != 3 or "-" in line[-1].split()[1:]:
+            ctx.broken.append("qb_slclass gave no class line for case %s" % cid)
+            break
+        shared, crashed = (w == "1" for w in line[-1].split()[1:])
+        py = mapgen.k_c18_sl(ops, ml[str(cid)][0])
+        uaf = any(l.startswith("SAN:") or l == "MODEL-DIVERGE" for l in ml[str(cid)][0])
+        nlean += shared
+        npy += bool(py)
+        ncrash += crashed
+        bad = None
+        if (crashed or uaf) and not shared:
+            bad = "the model crashes on a case outside the Lean class K_C18_sl"
+        elif py and not shared:
+            bad = "python k_c18_sl accepts a case that the Lean class K_C18_sl rejects"
+        if bad:
+            p = ctx.write_replay("slclass-selfcheck", "# %s\ncase 1\n%s\n# qb_slclass: %s\n# model output:\n%s\n" % (
+                bad, "\n".join(ops), line[-1], "\n".join("#   " + l for l in ml[str(cid)][0])))
+            ctx.broken.append("%s; see %s" % (bad, os.path.relpath(p, vlib.VERIF)))
+            break
+    ctx.count("slclass-selfcheck-cases", len(cases))
+    ctx.count("slclass-in-lean-class", nlean)
+    ctx.count("slclass-in-python-class", npy)
+    ctx.count("slclass-model-crashes", ncrash)
+
+
 def findings_for(ctx):
     """recorded findings of this property: the lines of KNOWN_FINDINGS.txt plus the entries of
     mapgen.PROPOSED_FINDINGS whose id has no line there yet (KNOWN_FINDINGS.txt is maintained by the
